@@ -385,6 +385,11 @@ def build(seed, tier, focus='all'):
     chain_inner = c.struct([field("max_entries", O), field("skip_if", O)])
     chain_mid = c.struct([field("max_retries", O), field("rest", ty("recv", chain_inner), flatten=True)])
     root([field("max_tries", O), field("skip", O), field("rest", ty("recv", chain_mid), flatten=True)], max_items=2)
+    # the same chain, but the middle level has a mistake of its own (a required member that is absent): the innermost
+    # level's bundle of two unknown names then arrives nested inside the middle level's bundle, not spliced into it
+    chain_mid_req = c.struct([field("needed", V), field("max_retries", O), field("rest", ty("recv", chain_inner), flatten=True)])
+    pair_root = root([field("max_tries", O), field("skip", O), field("rest", ty("recv", chain_mid_req), flatten=True)], max_items=2)
+    c.decls[pair_root - 1]["suggest_pairs"] = True      # suggest focus: one near miss per name, every pair of them
     # --- element-level roots --------------------------------------------------------------------
     for i, tr in enumerate(ELEMENT_TRAITS):
         kw = dict(trait=tr, attr_names=["x"], max_items=3, max_attrs=3)
@@ -483,6 +488,8 @@ def build(seed, tier, focus='all'):
         keep = {"all": True, "struct": not is_elem and not has_enum, "element": is_elem, "enum": has_enum,
                 "suggest": not is_elem or d["max_attrs"] == 2, "clean": True,
                 "hostile": any(f["ty"]["k"] in ("enum", "flag", "recv", "map") for f in d["fields"]) or d["attrs_field"] != "none"}[focus]
+        if focus != "suggest":
+            d.pop("suggest_pairs", None)
         d["entry"] = True      # stays in the dispatch table whatever the focus
         d["root"] = keep
     # quick tier: element-level roots get 2 attributes x 2 items, except the first two per trait-independent
@@ -513,6 +520,14 @@ def build(seed, tier, focus='all'):
             elem = d["trait"] != "FromMeta"
             if focus == "suggest":
                 al_s = suggest_alphabet(c, d, rng)
+                if d.pop("suggest_pairs", False):
+                    # two rejected names in one list: the innermost level's answer is a bundle of its own
+                    d.pop("deep_chain", None)
+                    names = [n for n in level_names(c, d, d["rename_all"]) if writable(n)]
+                    d["alpha"] = [meta(n[:-1], "nv", "s:v1") for n in names] + [meta(n[1:], "nv", "s:v1") for n in names[:4]] + [meta("zzz", "nv", "s:v1")]
+                    d["max_items"] = 2
+                    d["max_attrs"] = 1
+                    continue
                 d["alpha"] = al_s[: (80 if d.pop("deep_chain", False) or tier != "quick" else 30)]
                 d["max_items"] = 2 if len(d["alpha"]) <= 24 else 1
                 d["max_attrs"] = 1
